@@ -74,6 +74,7 @@ var programs = []string{
 	"<%= truncate(\"abcdefgh\", {size: 5}) %>;<%= len(xs) %>",
 	"<%# comment %><%= raw(\"<b>\") %><% x = 5 %><%= x %>",
 	"<%= for (v) in range(1, 2) { %><%= v %>;<% } %>",
+	"<%= \"abc\" ~= \"b\" %>|<%= \"abc\" ~= \"^z\" %>",
 }
 
 func fill(ctx *plush.Context, x, y int) {
@@ -107,13 +108,14 @@ func ExecSharedTemplate() {
 			return c
 		}
 	}
-	// what each execution returns when run alone
-	w1, e1 := t.Exec(mk(x, y))
-	w2, e2 := t.Exec(mk(y, y))
 	c1, c2 := mk(x, y), mk(y, y)
 	var o1, o2 string
 	var r1, r2 error
+	// the concurrent executions come first: nothing has been warmed up by an earlier run
 	vrt.Par(func() { o1, r1 = t.Exec(c1) }, func() { o2, r2 = t.Exec(c2) })
+	// what each execution returns when run alone
+	w1, e1 := t.Exec(mk(x, y))
+	w2, e2 := t.Exec(mk(y, y))
 	vrt.Assert((r1 == nil) == (e1 == nil) && (r2 == nil) == (e2 == nil), "each execution fails exactly when it fails alone")
 	vrt.Assert(o1 == w1, "each execution returns what it returns when run alone (first)")
 	vrt.Assert(o2 == w2, "each execution returns what it returns when run alone (second)")
